@@ -25,6 +25,11 @@ class SimBudget(Exception):
     """Step or virtual-time cap exceeded (harness outcome, never a violation by itself)."""
 
 
+class SimWallBudget(SimBudget):
+    """The run made no simulated progress for CASE_WALL seconds of REAL time: code that never returns to the event loop
+    (a busy loop).  Raised from a SIGALRM handler into whatever is executing; treated like the step cap (a hang)."""
+
+
 class HarnessError(Exception):
     """Something the harness did not expect (never reported as a violation)."""
 
